@@ -37,6 +37,7 @@ def run(res, args):
             x = g.doc()
         if x:
             xs.append(x)
+    xs += [xmlgen.syncml_xml(rng) for _ in range(150 if quick else 6000)]
     opts = [(rng.choice([0, 1, 2, 3, 3]), rng.choice([0, 1]), rng.choice([0, 1])) for _ in xs]   # version, keepws, strtbl
     env = b.env()
 
